@@ -376,6 +376,17 @@ def r5_flag(ctx, chk, rule="C01.5"):
                     continue
                 # (b) in the test of an `if` whose body only raises
                 st = ctx.cfg(f).stmt_of(n)
+                # (b') the test is first stored in a local that is used as nothing but such a test
+                if isinstance(st, ast.Assign) and len(st.targets) == 1 and isinstance(st.targets[0], ast.Name) and q == SOLVER_VIR:
+                    tname = st.targets[0].id
+                    uses = [u for u in ctx.cfg(f).uses_of(tname)]
+                    ifs = [ctx.cfg(f).stmt_of(u) for u in uses]
+                    stores_t = [x for x in walk_no_nested_defs(f.node) if isinstance(x, ast.Name) and x.id == tname and isinstance(x.ctx, ast.Store)]
+                    if uses and len(stores_t) == 1 and all(isinstance(i, ast.If) and (i.test is u or (isinstance(i.test, ast.UnaryOp) and False)) and not i.orelse
+                                                           and all(isinstance(b, ast.Raise) or _is_log(b) for b in i.body) and any(isinstance(b, ast.Raise) for b in i.body)
+                                                           for i, u in zip(ifs, uses)):
+                        chk.ok(rule, f.where(n), "flag `%s` enters `%s`, which is used only as the test guarding the no-solution raise" % (flag, tname))
+                        continue
                 if isinstance(st, ast.If) and _in(n, st.test) and all(isinstance(b, ast.Raise) or _is_log(b) for b in st.body) \
                         and any(isinstance(b, ast.Raise) for b in st.body) and not st.orelse:
                     if q == SOLVER_VIR:
